@@ -383,7 +383,69 @@ def warnings_probe(d, good, broken, swc):
 
 
 
+LAST_DOCS = {}      # the document(s) the last successful call returned (kept alive by run_history)
+
+
+def strip_indices(nets):
+    out = json.loads(json.dumps(nets))
+    for n in out:
+        for lst in (n["pops"], n["projs"], n["ilists"]):
+            for e in lst:
+                while e and isinstance(e[-1], dict) and "indices" in e[-1]:
+                    e.pop()
+    return out
+
+
+def content_dump(docs):
+    out = {}
+    for k, doc in docs.items():
+        items, incs = doc_items(doc)
+        out[k] = {"items": items, "includes": incs, "defs": doc_defs(doc), "nets": strip_indices(net_dump(doc))}
+    return out
+
+
+def run_history(d, calls):
+    """the calls of one history, in one process.  Every returned document is kept; after the last call each one must still be
+    what it was when it was returned (a later load must not change the result of an earlier one)"""
+    results, kept = [], []
+    for i, c in enumerate(calls):
+        LAST_DOCS.clear()
+        r = run_call_checked(d, c)
+        results.append(r)
+        if r.get("ok") and LAST_DOCS:
+            docs = dict(LAST_DOCS)
+            try:
+                kept.append((i, docs, content_dump(docs)))
+            except BaseException:
+                pass
+    LAST_DOCS.clear()
+    for i, docs, base in kept[:-1]:
+        try:
+            now = content_dump(docs)
+        except BaseException as e:
+            now = {"error": type(e).__name__}
+        if now != base:
+            diff = {}
+            for k in base:
+                for part in base[k]:
+                    if now.get(k, {}).get(part) != base[k][part]:
+                        diff["%s.%s" % (k, part)] = {"at_return": base[k][part], "after_later_calls": now.get(k, {}).get(part)}
+            results[i]["changed_by_later_calls"] = diff or {"error": now}
+    return {"results": results}
+
+
 def run_call(d, c):
+    if c.get("cwd"):     # the working directory is part of the input of a relative-path call: set here, restored on every path
+        old = os.getcwd()
+        os.chdir(os.path.join(d, c["cwd"]))
+        try:
+            return run_call_at(d, c)
+        finally:
+            os.chdir(old)
+    return run_call_at(d, c)
+
+
+def run_call_at(d, c):
     path = c["name"] if c.get("rel") else os.path.join(d, c["name"])
     base = None if c.get("base") == "none" else d
     ai = c.get("ai")
@@ -440,6 +502,9 @@ def run_call(d, c):
             use_doc(doc)
         except BaseException as e:
             res["use_error"] = type(e).__name__
+    LAST_DOCS["document"] = doc
+    if handler_doc is not None:
+        LAST_DOCS["handler_document"] = handler_doc
     return res
 
 
@@ -784,7 +849,7 @@ def main():
     for job in payload.get("jobs", []):
         k = job["kind"]
         if k == "history":
-            r = in_child(lambda: {"results": [run_call_checked(d, c) for c in job["calls"]]})
+            r = in_child(lambda: run_history(d, job["calls"]))
         elif k == "schedule":
             r = in_child(lambda: run_sched(job["sched"]))
         elif k == "solo":
